@@ -376,6 +376,64 @@ def dispatch_table():
     return table
 
 
+CHECK_FILES = {'fs/wrapfs.py': ['WrapFS'], 'fs/subfs.py': ['SubFS', 'ClosingSubFS'], 'fs/wrap.py': ['WrapCachedDir', 'WrapReadOnly'],
+               'fs/mountfs.py': ['MountFS'], 'fs/multifs.py': ['MultiFS'], 'fs/memoryfs.py': ['MemoryFS'], 'fs/osfs.py': ['OSFS'],
+               'fs/zipfs.py': ['ReadZipFS', 'WriteZipFS'], 'fs/tarfs.py': ['ReadTarFS', 'WriteTarFS'], 'fs/tempfs.py': ['TempFS']}
+CHECK_EXEMPT = NON_DATA | {"mount", "add_fs", "get_fs", "iterate_fs", "which", "clean", "write_zip", "write_tar", "walk", "glob"}
+_PURE = {'format', 'get', 'strip', 'lower', 'append', 'extend', 'partition', 'split', 'join', 'startswith', 'endswith',
+         'rstrip', 'lstrip', 'update', 'items', 'keys', 'values', 'copy'}
+
+
+def check_table():
+    """Translator (Python ast -> table): for every public data/metadata method DEFINED in a filesystem class of
+    /repo, does its body call self.check() / self.validatepath() (directly, or through a private method of the
+    class that does), or consist only of calls on self / super (so the check happens in what it calls)?"""
+    import ast
+    rows = []
+    for fn, classes in sorted(CHECK_FILES.items()):
+        tree = ast.parse(open(os.path.join(common.REPO, fn)).read())
+        for sub in ast.walk(tree):
+            if not (isinstance(sub, ast.ClassDef) and sub.name in classes):
+                continue
+            info = {}
+            defs = []
+
+            def collect(body):
+                for f in body:
+                    if isinstance(f, ast.FunctionDef):
+                        defs.append(f)
+                    elif isinstance(f, ast.If):      # e.g. OSFS: `if scandir: def _scandir ... else: def _scandir`
+                        collect(f.body)
+                        collect(f.orelse)
+            collect(sub.body)
+            alts = {}
+            for f in defs:
+                cs = []
+                for n in ast.walk(f):
+                    if isinstance(n, ast.Call):
+                        fu = n.func
+                        if isinstance(fu, ast.Attribute):
+                            b = fu.value
+                            if isinstance(b, ast.Name):
+                                cs.append((b.id, fu.attr))
+                            elif isinstance(b, ast.Call) and isinstance(b.func, ast.Name) and b.func.id == 'super':
+                                cs.append(('super', fu.attr))
+                            else:
+                                cs.append(('?', fu.attr))
+                        elif isinstance(fu, ast.Name):
+                            cs.append(('', fu.id))
+                info[f.name] = info.get(f.name, []) + cs
+                alts.setdefault(f.name, []).append(('self', 'check') in cs or ('self', 'validatepath') in cs)
+            direct = dict((m, all(a)) for m, a in alts.items())      # every alternative definition must check
+            for m, cs in sorted(info.items()):
+                if m.startswith('_') or m in CHECK_EXEMPT:
+                    continue
+                via_private = any(b == 'self' and a.startswith('_') and direct.get(a) for b, a in cs)
+                only_self = all(b in ('self', 'super', '', 'errors', 'six', 'typing') or a in _PURE for b, a in cs)
+                rows.append((sub.name, m, bool(direct[m] or via_private), bool(only_self)))
+    return rows
+
+
 def write_gen(table, mut):
     os.makedirs(os.path.join(common.COQ, "Gen"), exist_ok=True)
     def lit(s):
@@ -383,10 +441,16 @@ def write_gen(table, mut):
     rows = []
     for (c, n), k in sorted(table.items()):
         rows.append("  (%s, %s, %s, %s)" % (lit(c), lit(n), lit(k), "true" if mut.get(n) else "false"))
+    crow = ["  (%s, %s, %s, %s)" % (lit(c), lit(m), "true" if a else "false", "true" if b else "false")
+            for c, m, a, b in check_table()]
     text = ("(* GENERATED on every run from the running code of /repo by harness/h_reflect.py. *)\n"
             "From Coq Require Import List NArith Bool.\nImport ListNotations.\n"
             "Definition dispatch_table : list (list N * list N * list N * bool) := [\n" +
-            ";\n".join(rows) + "].\n")
+            ";\n".join(rows) + "].\n"
+            "(* class, method defined in it, calls check()/validatepath() (or a private method that does),\n"
+            "   consists only of calls on self/super *)\n"
+            "Definition check_table : list (list N * list N * bool * bool) := [\n" +
+            ";\n".join(crow) + "].\n")
     path = os.path.join(common.COQ, "Gen", "Dispatch_gen.v")
     old = open(path).read() if os.path.exists(path) else None
     if old != text:
